@@ -41,6 +41,9 @@ fn powq(base: u64, e: usize) -> u64 {
 pub(crate) fn table(k: usize) -> u32 { t(k) as u32 }
 pub(crate) fn table_inv(k: usize) -> u32 { ti(k) as u32 }
 
+/// entry k of the forward twiddle table (for the native witness search)
+pub(crate) fn tab_value(k: usize) -> i64 { FELT_BITREVERSED_POWERS_1024[k].value() as i64 }
+
 harnesses! {
     /// every entry of both tables is a canonical residue
     fn tab_wf(d) {
